@@ -15,7 +15,7 @@ PID = "C03"
 RULE = (
     "stream sets (1-8, thorough 1-12; incl. multi-pocket patterns, isothermal extreme streams) crossed with utility sets: none (defaults only), "
     "1-3 hot / cold levels and a Both level inside or outside the process range, isothermal and with glide, inactive entries; oracle per "
-    "Direct-Integration target: sum of hot duties = exact Qh, sum of cold duties = exact Qc, duties >= 0, a utility with duty has its shifted "
+    "Direct-Integration target: sum of hot duties = exact Qh, sum of cold duties = exact Qc, duties >= 0, the levels duties are assigned on are the supplied ones (isothermal entries opened by the phase-change span on their own side, shifted by the utility contribution); a utility with duty has its shifted "
     "supply end beyond the exact pinch and carries no more than the exact pocket-free GCC at that level; the Total-Process target lists, "
     "position by position and name by name, the sum of the child zones' duties. non-trivial = some zone needs utility on a side where >= 2 "
     "levels were supplied, or a default utility had to be added; distinct by canonical JSON."
@@ -42,6 +42,19 @@ def eval_case(case) -> Outcome:
         where = "/".join(path) or "<site>"
         hu, cu = P.ut_rows(t, "hot"), P.ut_rows(t, "cold")
         per_zone[path] = (hu, cu)
+        # the levels the duties are assigned on are the supplied ones (an isothermal entry opened by the documented
+        # phase-change span on its own side), shifted by the utility's own contribution towards the process
+        exp_u = P.expanded_utilities(case)
+        for side, rows in (("hot", hu), ("cold", cu)):
+            for u in rows:
+                cands = [e for e in exp_u if e["name"] == u["name"] and e["type"] in (("Hot", "Both") if side == "hot" else ("Cold", "Both"))]
+                if len(cands) != 1 or sum(1 for e in exp_u if e["name"] == u["name"]) != 1:
+                    continue
+                e = cands[0]
+                lo, hi = min(u["t_supply"], u["t_target"]), max(u["t_supply"], u["t_target"])
+                want_s = float(e["hi"] - e["dt"]) if side == "hot" else float(e["lo"] + e["dt"])
+                if abs(lo - float(e["lo"])) > 1e-9 or abs(hi - float(e["hi"])) > 1e-9 or abs(u["ts"] - want_s) > 1e-9:
+                    out.fail("C03.utility_levels", f"{where}: {side} utility {u['name']} is used on [{lo!r}, {hi!r}] (shifted supply {u['ts']!r}) but was supplied as [{float(e['lo'])!r}, {float(e['hi'])!r}] with contribution {float(e['dt'])!r}")
         sh, sc = sum(u["q"] for u in hu), sum(u["q"] for u in cu)
         if abs(sh - float(c.Qh)) > eps:
             out.fail("C03.hu_sum", f"{where}: hot utilities {[(u['name'], u['q']) for u in hu]} sum {sh!r} but Qh={float(c.Qh)!r}")
